@@ -254,6 +254,9 @@ impl<K: KeyT> SetWorld<K> {
         }
         self.ctx.note_state(&d);
         self.ctx.group_monitor(&d)?;
+        if let Some((c, det)) = dump::check_budget(&d) {
+            vio!(self, c, "{det}");
+        }
         let act = self.actual(si);
         if act.iter().any(|x| !x.1) {
             vio!(self, "ledger/invalid-ref", "the set holds an element that is not live");
